@@ -16,6 +16,7 @@ Next == /\ verdict = "ok" /\ l <= Len(Traces[tid])
               /\ verdict' = IF e.ev \notin {"Feed", "Event"} THEN "unknown_event"
                             ELSE IF e.ev = "Feed" THEN "ok"          \* fed to the tracker, its state not observed here
                             ELSE IF ~e.keptuser THEN "tracker_hands_out_the_optimizer_domain_result"
+                            ELSE IF ~e.varsmatch THEN "basic_optimizer_variables_not_those_of_the_reported_result"
                             ELSE IF Holds(e.what, e.kept, h, e.flip) THEN "ok"
                             ELSE IF e.kept = 0 THEN "valid_result_blocked_or_dropped"
                             ELSE IF e.what = "best" /\ (\E it \in AllItems(h) : it.id = e.kept /\ Valid(it)) THEN "kept_result_not_the_optimum"
